@@ -3,7 +3,7 @@
    (CFeed InEof | InErr | InAlert, handled by the receive task), transport write failure (CFail, then any
    write), all at any point of any schedule. Every theorem quantifies over all programs and schedules. *)
 From Coq Require Import List NArith Arith.
-From AnyTLS Require Import Bytes Cmd Generated Frame Conc ConcInv ConcLin ConcDeath ConcTerm ConcStall.
+From AnyTLS Require Import Bytes Cmd Generated Frame Conc ConcInv ConcLin ConcDeath ConcTerm ConcStall ConcFair.
 Import ListNotations.
 
 (* 1. nothing can be blocked by the session's own locks: in every reachable state every task is finished,
@@ -67,11 +67,56 @@ Example C09_known_F4_witness :
 Proof. cbv zeta. unfold wedged, in_transport. repeat split; try (vm_compute; reflexivity). vm_compute. eauto. Qed.
 
 (* 2. ... and never for long: under ANY schedule a task takes at most `progw program` steps in total
-      (8 per write, 11 per open, 3 per close, 9 per iteration of the forwarding loop, 1 otherwise), so every granted step is progress towards the end *)
+      (8 per write, 11 per open, 3 per close, 9 per iteration of the forwarding loop, 4 per injected peer event, 1 otherwise), so every granted step is progress towards the end *)
 Theorem C09_bounded_steps : forall progs buf pend sched t,
   t <> rtid -> (steps_of t (init progs buf pend) sched <= progw (nth t progs []))%nat.
 Proof. intros. apply budget. assumption. Qed.
 Print Assumptions C09_bounded_steps.
+
+(* 2a. "promptly", as one statement: from EVERY reachable state, round-robin scheduling of the tasks brings the
+       session's machinery to rest within (sum of the programs' budgets + 1) rounds, and at rest every task has
+       finished its program, waits for the peer (data / verdict not yet sent), the forwarding task waits for the
+       application, or the task is blocked by the stalled transport (F4: inside the write, or queued on the writer
+       mutex behind such a write) -- nothing else: no other way of being stuck exists *)
+Theorem C09_released_promptly : forall progs buf pend sched0,
+  let n := length progs in
+  let s0 := run (init progs buf pend) sched0 in
+  (forall u, In u sched0 -> (u < n)%nat) ->
+  let N := S (sumf (fun t => progw (nth t progs [])) (seq 0 n)) in
+  let s := run s0 (rounds n N) in
+  forall t, finished s t \/ awaits_peer s t \/ awaits_app s t \/ transport_blocked s t.
+Proof. exact fair_release. Qed.
+Print Assumptions C09_released_promptly.
+
+(* 2b. ... and when that session is dead (closed, by whatever cause) and its transport has not stalled, nobody is
+       parked in a read and nobody is inside close(): every task has finished, except the forwarding task parked
+       in recv() (the missed notification: a leaked task, not a caller) and an open whose stream the peer's FIN
+       removed before close() ran (its verdict comes from the open timer, CTimeout) *)
+Theorem C09_dead_session_at_rest : forall progs buf pend sched0,
+  let n := length progs in
+  let s0 := run (init progs buf pend) sched0 in
+  (forall u, In u sched0 -> (u < n)%nat) ->
+  let N := S (sumf (fun t => progw (nth t progs [])) (seq 0 n)) in
+  let s := run s0 (rounds n N) in
+  closed s = true -> stalled s = false ->
+  forall t, finished s t \/ awaits_app s t \/ awaits_verdict s t.
+Proof. exact dead_at_rest. Qed.
+Print Assumptions C09_dead_session_at_rest.
+
+(* non-vacuity: a parked reader, a pending open and a writer whose fifth write hits the failed transport; after
+   the 84 round-robin rounds of the bound the session is dead and shut down, the reader has seen end-of-stream,
+   the pending open has its error, and all four tasks have finished *)
+Example C09_promptly_nonvacuous :
+  let w := {| fcmd := Waste; fsid := 0; fdata := [] |} in
+  let progs := [[]; [COpen; CDisableBuf; CData [1]; CRead]; [COpen; CData [2]; CAwait];
+                [CDisableBuf; CWrite w; CWrite w; CWrite w; CWrite w; CFail; CWrite w]] in
+  let n := length progs in
+  let N := S (sumf (fun t => progw (nth t progs [])) (seq 0 n)) in
+  let s := run (init progs false []) (rounds n N) in
+  N = 84%nat /\ closed s = true /\ stalled s = false /\ shut s = true /\
+  t_res (tasks s 1%nat) = [ResOk; ResOk; ResOk; ResEof] /\ t_res (tasks s 2%nat) = [ResOk; ResOk; ResClosed] /\
+  t_res (tasks s 3%nat) = [ResOk; ResOk; ResOk; ResOk; ResOk; ResOk; ResIo].
+Proof. cbv zeta. repeat split; vm_compute; reflexivity. Qed.
 
 (* 3. once the session is closed -- by whatever cause -- and nobody is still inside close(), the transport
       is shut down (or has stalled: close() gives its shutdown one second, `shutdown_tr`) and the two stream tables (`streams`, `stream_receive_tx`) hold nothing that any caller can reach:
